@@ -496,3 +496,127 @@ theorem routeBody_spec (t : Table) (sid : Nat) (form : List (Bytes × Bytes))
 
 
 end Rfsm.Http
+
+namespace Rfsm.Http
+
+/-! ### the path segment: `u32::from_str (n.to_string()) = n` -/
+
+theorem digit_facts : ∀ d, d < 10 →
+    ((48 : UInt8) ≤ digitChar d && digitChar d ≤ 57 && (digitChar d).toNat - 48 == d &&
+      digitChar d != 37 && digitChar d != 43) = true := by decide
+
+theorem digitsVal_cons_digit (d : Nat) (hd : d < 10) (cs : Bytes) :
+    digitsVal (digitChar d :: cs) = (digitsVal cs).map (fun r => d * 10 ^ cs.length + r) := by
+  have h := digit_facts d hd
+  simp only [Bool.and_eq_true, beq_iff_eq, bne_iff_ne, ne_eq, decide_eq_true_eq] at h
+  obtain ⟨⟨⟨⟨h1, h2⟩, h3⟩, _⟩, _⟩ := h
+  have hc : ((48 : UInt8) ≤ digitChar d && digitChar d ≤ 57) = true := by simp [h1, h2]
+  simp only [digitsVal, hc, ↓reduceIte, h3]
+
+theorem digitsVal_decimalAux (fuel n : Nat) (acc : Bytes) (h : n < fuel) :
+    digitsVal (decimalAux fuel n acc) = (digitsVal acc).map (fun r => n * 10 ^ acc.length + r) := by
+  induction fuel generalizing n acc with
+  | zero => omega
+  | succ fuel ih =>
+    unfold decimalAux
+    by_cases h10 : n < 10
+    · simp only [h10, ↓reduceIte]
+      exact digitsVal_cons_digit n h10 acc
+    · simp only [h10, ↓reduceIte]
+      have hq : n / 10 < fuel := by omega
+      rw [ih (n / 10) _ hq, digitsVal_cons_digit (n % 10) (Nat.mod_lt n (by omega)) acc, Option.map_map]
+      congr 1
+      funext r
+      simp only [Function.comp, List.length_cons, Nat.pow_succ]
+      have e1 : n / 10 * (10 ^ acc.length * 10) = (n / 10 * 10 ^ acc.length) * 10 := by
+        rw [Nat.mul_assoc]
+      have e2 : n * 10 ^ acc.length = (10 * (n / 10) + n % 10) * 10 ^ acc.length := by
+        rw [Nat.div_add_mod]
+      rw [e1, e2, Nat.add_mul, Nat.mul_assoc 10]
+      omega
+
+theorem digitsVal_decimal (n : Nat) : digitsVal (decimal n) = some n := by
+  unfold decimal
+  rw [digitsVal_decimalAux (n + 1) n [] (by omega)]
+  simp [digitsVal]
+
+def isDigit (c : UInt8) : Bool := 48 ≤ c && c ≤ 57
+
+theorem isDigit_digitChar (d : Nat) (hd : d < 10) : isDigit (digitChar d) = true := by
+  have h := digit_facts d hd
+  simp only [Bool.and_eq_true, beq_iff_eq, bne_iff_ne, ne_eq, decide_eq_true_eq] at h
+  simp [isDigit, h.1.1.1.1, h.1.1.1.2]
+
+theorem decimalAux_digits (fuel n : Nat) (acc : Bytes) (h : acc.all isDigit = true) :
+    (decimalAux fuel n acc).all isDigit = true := by
+  induction fuel generalizing n acc with
+  | zero => exact h
+  | succ fuel ih =>
+    unfold decimalAux
+    by_cases h10 : n < 10
+    · simp only [h10, ↓reduceIte, List.all_cons, isDigit_digitChar n h10, h, Bool.and_self]
+    · simp only [h10, ↓reduceIte]
+      apply ih
+      simp only [List.all_cons, isDigit_digitChar (n % 10) (Nat.mod_lt n (by omega)), h, Bool.and_self]
+
+theorem decimalAux_ne_nil (fuel n : Nat) (acc : Bytes) (h : acc ≠ [] ∨ 0 < fuel) :
+    decimalAux fuel n acc ≠ [] := by
+  induction fuel generalizing n acc with
+  | zero =>
+    rcases h with h | h
+    · exact h
+    · omega
+  | succ fuel ih =>
+    unfold decimalAux
+    by_cases h10 : n < 10
+    · simp [h10]
+    · simp only [h10, ↓reduceIte]
+      exact ih _ _ (Or.inl (by simp))
+
+theorem pctDecode_noPct (s : Bytes) (h : s.all (fun c => c != 37) = true) : pctDecode s = s := by
+  induction s with
+  | nil => rfl
+  | cons c s ih =>
+    rw [List.all_cons, Bool.and_eq_true] at h
+    rw [pctDecode_cons_ne c s (by simpa using h.1), ih h.2]
+
+theorem isDigit_facts : ∀ c : UInt8, isDigit c = true → c ≠ 37 ∧ c ≠ 43 := by
+  intro c h
+  have := byte_all (fun c => !isDigit c || (c != 37 && c != 43)) (by decide +kernel) c
+  simp only [h, Bool.not_true, Bool.false_or, Bool.and_eq_true, bne_iff_ne, ne_eq] at this
+  exact this
+
+theorem parseSid_digits (s : Bytes) (hd : s.all isDigit = true) (hne : s ≠ []) :
+    parseSid s = match digitsVal s with
+      | some n => if n < 4294967296 then some n else none
+      | none => none := by
+  cases s with
+  | nil => exact absurd rfl hne
+  | cons c cs =>
+    have hc43 : c ≠ 43 := by
+      rw [List.all_cons, Bool.and_eq_true] at hd
+      exact (isDigit_facts c hd.1).2
+    have hds : stripPlus (c :: cs) = c :: cs := by
+      unfold stripPlus
+      split
+      · rename_i r heq
+        simp only [List.cons.injEq] at heq
+        exact absurd heq.1 hc43
+      · rfl
+    unfold parseSid
+    simp only [hds, List.isEmpty_cons, Bool.false_eq_true, ↓reduceIte]
+    cases digitsVal (c :: cs) <;> rfl
+
+/-- the decimal spelling of a session id is read back as that id -/
+theorem parseSid_decimal (n : Nat) (h : n < 4294967296) : parseSid (pctDecode (decimal n)) = some n := by
+  have hd : (decimal n).all isDigit = true := decimalAux_digits _ _ [] rfl
+  have hne : decimal n ≠ [] := decimalAux_ne_nil _ _ [] (Or.inr (by omega))
+  have hp : (decimal n).all (fun c => c != 37) = true := by
+    apply List.all_eq_true.mpr
+    intro c hc
+    have := (isDigit_facts c (List.all_eq_true.mp hd c hc)).1
+    simpa using this
+  rw [pctDecode_noPct _ hp, parseSid_digits _ hd hne, digitsVal_decimal]
+  simp [h]
+
+end Rfsm.Http
